@@ -145,7 +145,7 @@ def _grid():
 
 
 def shards(tier):
-    n = 600 if tier == "quick" else 15000
+    n = 600 if tier == "quick" else 40000
     return [Shard("enum-zone-x-timeframe", cases=_grid, subject="zone", exhaustive=True)] + [Shard(f"gen-{i}", lambda: cases(), n, subject="zone") for i in range(14)] + [
         Shard(f"gen-long-{i}", lambda: cases(max_n=90), n // 3, subject="zone", cost=2) for i in range(2)
     ]
